@@ -24,7 +24,11 @@ META = dict(
           "Reference cycles and other threads' state are outside the property."),
     design_ref="DESIGN.md §6 C11")
 
-EXTRA = ["by_cref(Wrap(%d))", "by_value(Wrap(%d))", "pr(by_cref(Wrap(%d)) + by_cref(Wrap(%d)))", "var u%d = make_up(%d); pr(u%d.get())", "var w%d = owned_ref(); w%d.set(%d)", "var &q%d = owned_ref(); pr(q%d.get())",
+EXTRA = ["var rs%d = make_sp(%d); reseat(rs%d, 7); pr(rs%d.get()); pr(by_cref(rs%d)); var rc%d = rs%d; pr(rc%d.get()); rs%d.set(3); pr(by_value(rs%d))",
+         "var rt%d = make_sp(%d); var ru%d = rt%d; reseat(rt%d, 8); pr(ru%d.get()); pr(rt%d.get()); pr(by_sp(rt%d))",
+         "var rv%d = make_sp(%d); unseat(rv%d); reseat(rv%d, 9); pr(rv%d.get()); pr(by_cref(rv%d))",
+         "def rf%d(p) { reseat(p, 6); by_cref(p) }; var rw%d = make_sp(%d); pr(rf%d(rw%d)); pr(rw%d.get())",
+         "by_cref(Wrap(%d))", "by_value(Wrap(%d))", "pr(by_cref(Wrap(%d)) + by_cref(Wrap(%d)))", "var u%d = make_up(%d); pr(u%d.get())", "var w%d = owned_ref(); w%d.set(%d)", "var &q%d = owned_ref(); pr(q%d.get())",
          "def g%d() { by_cref(Wrap(%d)); return T(%d) }; var z%d = g%d()", "var m%d = [\"k\": T(%d)]; pr(m%d[\"k\"].get())", "pr(nosuch%d)", "var p%d = Pair(T(%d), T(%d))" if False else "pr(T(%d).get() + T(%d).get())",
          "pr(Holder(%d).inner.get())", "pr(make_holder(%d).inner.get())", "Holder(%d).inner.set(5)", "var hh%d = Holder(%d); pr(hh%d.inner.get()); var &ri%d = hh%d.inner; pr(ri%d.get())",
          "pr(inner_of(Holder(%d)).get())" if False else "pr(Holder(%d).inner.ident() > 0)", "pr(by_cref(Holder(%d).inner))", "pr(by_value(make_holder(%d).inner))",
